@@ -740,7 +740,6 @@ Section PlugProofs.
       eapply PlugOk; eauto.
       + intros ->. discriminate.
       + now apply fetch_located.
-      + now rewrite <- (plug_opts_is_documented (pf_sw f)).
     - intros [b [P [Rn [Wk Gd]]]].
       destruct P as [plugs' socket' spath sbytes g0 sid ks g ids g' Ep' Hne Es' L Er Ea Ek R Edp Ee].
       rewrite Ep in Ep'. injection Ep' as <-. rewrite Es in Es'. injection Es' as <-.
@@ -792,9 +791,176 @@ Section PlugProofs.
           | right; eexists; split; [eexists; right; reflexivity | reflexivity] ]
     end.
     destruct (keyed plugs) as [ks|]; [|right; eexists; split; [eexists; left; reflexivity | reflexivity]].
-    destruct (add_plugs_cases (pf_registry f) (registrations hash_order ks) (fst a1) []) as [[g2 [ids H]] | [o [So H]]].
-    - assert (forall k, pfront_tail_eq k) as _ by exact I.
-      right. exists (fail StUsage). split; [eexists; left; reflexivity|]. intros k. exfalso. exact (False_rect _ I).
+    match goal with |- context[addp ?reg ?g ?acc ?l _] =>
+      destruct (add_plugs_cases reg l g acc) as [[g2 [ids H]] | [o [So H]]] end.
+    - assert (forall k, exists o, o = k) as _ by eauto.
+      destruct (do_plug g2 ids (snd a1)) as [g'| |] eqn:Edp.
+      + destruct (encode_g g' (plug_opts (pf_sw f))) as [b| |] eqn:Ee.
+        * left. exists b. intros k. rewrite H. cbn [bind]. rewrite Edp. cbn [bind]. rewrite Ee. reflexivity.
+        * right. exists (fail StEncode). split; [eexists; left; reflexivity|]. intros k.
+          rewrite H. cbn [bind]. rewrite Edp. cbn [bind]. rewrite Ee. reflexivity.
+        * right. exists (panic StEncode). split; [eexists; right; reflexivity|]. intros k.
+          rewrite H. cbn [bind]. rewrite Edp. cbn [bind]. rewrite Ee. reflexivity.
+      + right. exists (fail StPlug). split; [eexists; left; reflexivity|]. intros k.
+        rewrite H. cbn [bind]. rewrite Edp. reflexivity.
+      + right. exists (panic StPlug). split; [eexists; right; reflexivity|]. intros k.
+        rewrite H. cbn [bind]. rewrite Edp. reflexivity.
     - right. exists o. split; auto.
   Qed.
+
+  Definition with_poutput (f : plug_flags) (o : option str) : plug_flags :=
+    mk_pf (pf_plugs f) (pf_socket f) (pf_sw f) o (pf_registry f).
+  Definition with_pwat (f : plug_flags) (w : bool) : plug_flags :=
+    mk_pf (pf_plugs f) (pf_socket f) (mk_psw w) (pf_output f) (pf_registry f).
+
+  Theorem plug_o_equals_stdout f p :
+    write_ok p = true ->
+    refuses_terminal (psw_wat (pf_sw f)) false stdout_tty = false ->
+    (exists out, run (with_poutput f (Some p)) = delivered (Some p) out (newline_after (psw_wat (pf_sw f))) /\
+                 run (with_poutput f None) = delivered None out (newline_after (psw_wat (pf_sw f))))
+    \/ (exit_code (run (with_poutput f (Some p))) <> 0 /\ run (with_poutput f None) = run (with_poutput f (Some p))).
+  Proof.
+    intros Wk Gd. rewrite !plug_front_back.
+    change (pfront (with_poutput f (Some p))) with (pfront f). change (pfront (with_poutput f None)) with (pfront f).
+    cbn [with_poutput pf_sw pf_output].
+    destruct (pfront_cases f) as [[b Hb] | [o [So Hk]]].
+    - rewrite !Hb. unfold pback. rewrite !plug_guard_is_documented. cbn [is_some]. rewrite Gd.
+      assert (refuses_terminal (psw_wat (pf_sw f)) true stdout_tty = false) as -> by (destruct (psw_wat (pf_sw f)); reflexivity).
+      rewrite !emit_delivered by (intros q E; congruence).
+      destruct (if psw_wat (pf_sw f) then print_text b else SOk b) as [out| |].
+      + left. exists out. split; reflexivity.
+      + right. split; [discriminate | reflexivity].
+      + right. split; [discriminate | reflexivity].
+    - rewrite !Hk. right. split; [now apply stopped_exit | reflexivity].
+  Qed.
+
+  Theorem plug_t_prints_same_component f :
+    refuses_terminal false (is_some (pf_output f)) stdout_tty = false ->
+    (forall p, pf_output f = Some p -> write_ok p = true) ->
+    (exists b, run (with_pwat f false) = delivered (pf_output f) b [] /\
+               run (with_pwat f true) = match print_text b with
+                                        | SOk t => delivered (pf_output f) t [10]
+                                        | SErr => fail StPrint
+                                        | SPanic => panic StPrint
+                                        end)
+    \/ (exit_code (run (with_pwat f false)) <> 0 /\ run (with_pwat f true) = run (with_pwat f false)).
+  Proof.
+    intros Gd Wk. rewrite !plug_front_back.
+    change (pfront (with_pwat f true)) with (pfront (with_pwat f false)).
+    cbn [with_pwat pf_sw pf_output].
+    destruct (pfront_cases (with_pwat f false)) as [[b Hb] | [o [So Hk]]].
+    - rewrite !Hb. unfold pback. rewrite !plug_guard_is_documented. cbn [psw_wat]. rewrite Gd.
+      cbn [refuses_terminal]. rewrite !emit_delivered by exact Wk. left. exists b. split; reflexivity.
+    - rewrite !Hk. right. split; [now apply stopped_exit | reflexivity].
+  Qed.
 End PlugProofs.
+
+(** * wac targets *)
+
+Lemma assoc_filter_notin {A} (p : str * A -> bool) n (l : list (str * A)) :
+  ~ In n (map fst l) -> assoc_str n (filter p l) = None.
+Proof.
+  induction l as [|[k e] l IH]; cbn; auto. intros N.
+  assert (assoc_str n (filter p l) = None) as IH' by (apply IH; tauto).
+  destruct (p (k, e)); auto. cbn. destruct (str_eqb k n) eqn:E; auto.
+  apply cli_str_eqb_eq in E. subst. exfalso. apply N. now left.
+Qed.
+
+Section TargetsProofs.
+  Variables W C : Type.
+  Variable wit_encode : str -> sres str.
+  Variable wit_decode : str -> sres (list (str * wit_export W)).
+  Variable read_bin : str -> sres str.
+  Variable comp_decode : str -> sres C.
+  Variable validate_t : W -> C -> sres unit.
+  Notation run := (targets W C wit_encode wit_decode read_bin comp_decode validate_t).
+
+  Theorem targets_exit_zero_iff f :
+    exit_code (run f) = 0 <->
+    exists wb exports cb c w,
+      wit_encode (tf_wit f) = SOk wb /\ wit_decode wb = SOk exports /\
+      read_bin (tf_component f) = SOk cb /\ comp_decode cb = SOk c /\
+      select_world exports (tf_world f) = Some w /\ validate_t w c = SOk tt.
+  Proof.
+    rewrite exit_zero_iff_success. unfold targets. split.
+    - intros H. rewrite bind_success in H. destruct H as [wb [E1 H]].
+      rewrite bind_success in H. destruct H as [ex [E2 H]].
+      rewrite bind_success in H. destruct H as [cb [E3 H]].
+      rewrite bind_success in H. destruct H as [c [E4 H]].
+      destruct (select_world ex (tf_world f)) as [w|] eqn:E5; [|discriminate].
+      rewrite bind_success in H. destruct H as [[] [E6 _]]. exists wb, ex, cb, c, w. auto 10.
+    - intros [wb [ex [cb [c [w [E1 [E2 [E3 [E4 [E5 E6]]]]]]]]]].
+      rewrite E1. cbn. rewrite E2. cbn. rewrite E3. cbn. rewrite E4. cbn. rewrite E5, E6. reflexivity.
+  Qed.
+
+  Theorem targets_never_writes f : o_stdout (run f) = [] /\ o_writes (run f) = [].
+  Proof.
+    unfold targets.
+    repeat match goal with
+    | |- context[bind ?r _ _] => destruct r; cbn [bind]; try (split; reflexivity)
+    | |- context[match select_world ?e ?w with _ => _ end] => destruct (select_world e w); try (split; reflexivity)
+    end.
+  Qed.
+End TargetsProofs.
+
+(** `--world NAME` selects the world of that name (export names of a package are unique). *)
+Theorem targets_named_world_documented {W} (exports : list (str * wit_export W)) n :
+  NoDup (map fst exports) ->
+  select_world exports (Some n) = documented_world exports (Some n).
+Proof.
+  unfold select_world, documented_world, worlds_of.
+  induction exports as [|[k e] l IH]; cbn; auto. intros ND. inversion ND as [|? ? NI ND']; subst.
+  destruct (str_eqb k n) eqn:E.
+  - apply cli_str_eqb_eq in E. subst k. destruct e; cbn; rewrite ?cli_str_eqb_refl; auto.
+    now rewrite assoc_filter_notin.
+  - destruct (is_world_export e); cbn; rewrite ?E; auto.
+Qed.
+
+(** Without `--world`: the only world is selected, PROVIDED the selection looks at worlds only
+    (or the package exports nothing but worlds). *)
+Theorem targets_default_world_documented {W} (exports : list (str * wit_export W)) :
+  targets_default_counts_all_exports = false \/ forallb (fun e => is_world_export (snd e)) exports = true ->
+  select_world exports None = documented_world exports None.
+Proof.
+  unfold select_world, documented_world, default_candidates, worlds_of. intros H.
+  assert (filter (fun e => is_world_export (snd e)) exports = exports \/ targets_default_counts_all_exports = false) as Hf.
+  { destruct H as [H|H]; auto. left. induction exports as [|x l IH]; cbn in *; auto.
+    apply andb_true_iff in H. destruct H as [-> H]. now rewrite IH. }
+  destruct targets_default_counts_all_exports.
+  - destruct Hf as [-> | Hf]; [|discriminate].
+    destruct exports as [|[k e] [|? ?]]; auto. destruct e; reflexivity.
+  - destruct (filter _ exports) as [|[k e] [|? ?]]; auto. destruct e; reflexivity.
+Qed.
+
+(** The documented default fails as soon as the WIT package also has an interface: the code
+    counts every export of the encoded package, not only the worlds. *)
+Theorem targets_default_world_refuted :
+  targets_default_counts_all_exports = true ->
+  exists (exports : list (str * wit_export unit)),
+    NoDup (map fst exports) /\ documented_world exports None = Some tt /\ select_world exports None = None.
+Proof.
+  intros H. exists [([97], EOther); ([119], EWorld tt)]. split.
+  - repeat constructor; cbn; intuition discriminate.
+  - unfold select_world, default_candidates. rewrite H. split; reflexivity.
+Qed.
+
+(** * README examples against the generated flag table *)
+
+Lemma readme_examples_accepted_or_known_lemma :
+  forallb (fun e => accepts cli_flags e || argv_eqb e readme_targets_example) readme_examples = true.
+Proof. vm_compute. reflexivity. Qed.
+
+Lemma readme_targets_example_rejected : accepts cli_flags readme_targets_example = false.
+Proof. vm_compute. reflexivity. Qed.
+
+Lemma guard_positions : compose_guard_before_encode = true /\ plug_guard_before_encode = false.
+Proof. split; reflexivity. Qed.
+
+(** * The literal reading of "-o writes exactly the bytes otherwise sent to stdout" *)
+Lemma o_equals_stdout_literal_counterexample :
+  exists (pt : str -> sres str) (wo : str -> bool) b p out,
+    emit pt wo true (Some p) b = delivered (Some p) out [] /\
+    o_stdout (emit pt wo true None b) <> out.
+Proof.
+  exists (fun _ => SOk [40]), (fun _ => true), [0], [111], [40]. split; [reflexivity|]. cbn. discriminate.
+Qed.
